@@ -71,6 +71,8 @@ func (c towerPkg) sub() string {
 		return "H2C"
 	case c.ext == "hash":
 		return "Hash"
+	case c.ext == "fft":
+		return "FFT"
 	case c.pairing:
 		return "Pairing"
 	case c.curve:
@@ -179,6 +181,7 @@ type typ struct {
 	name   string // Lean structure name (E2, Arr5)
 	arr    bool
 	list   bool // variadic / slice parameter of pointers to ftypes[0] (read-only): a Lean List
+	jag    bool // fft mode (slpfft.go): a `[][]Element` table whose row lengths are fixed by the specialisation (read-only structure of arrays)
 	fields []string
 	ftypes []*typ
 }
@@ -236,6 +239,8 @@ type param struct {
 	slice  bool // []Element: a pointer to an array whose length is fixed by the specialisation
 	isBool bool // static bool
 	spec   bool // receiver of the specialisation struct (h *Permutation)
+	jag    bool // fft mode: [][]Element, a read-only table of rows of fixed lengths (passed by value)
+	isChan bool // fft mode: chan struct{}, statically nil (no goroutine is ever started on a translated path)
 }
 
 type fn struct {
@@ -857,8 +862,11 @@ func (p *pkgCtx) addFunc(f *ast.File, inBase bool, d *ast.FuncDecl) {
 			if id, ok := fl.Type.(*ast.Ident); ok && id.Name == "bool" {
 				q.isBool = true
 			}
+			if p.cfg.ext == "fft" {
+				p.fftParam(f, inBase, fl.Type, &q)
+			}
 		}
-		if t == nil && !isInt && !q.slice && !q.isBool {
+		if t == nil && !isInt && !q.slice && !q.isBool && !q.jag && !q.isChan {
 			bad("parameter of unsupported type " + exprStr(fl.Type))
 		}
 		for _, nm := range fl.Names {
@@ -1010,6 +1018,7 @@ type state struct {
 	sints  map[string]int64
 	sbools map[string]bool
 	bigs   map[string]*big.Int
+	views  map[string]view // fft mode: local names bound to a sub-slice of an array cell
 }
 
 func (s *state) clone() *state {
@@ -1030,6 +1039,12 @@ func (s *state) clone() *state {
 		}
 		for k, v := range s.bigs {
 			c.bigs[k] = new(big.Int).Set(v)
+		}
+	}
+	if s.views != nil {
+		c.views = map[string]view{}
+		for k, v := range s.views {
+			c.views[k] = v
 		}
 	}
 	return c
@@ -1055,6 +1070,7 @@ type tr struct {
 	loopSnap map[*ast.ForStmt]map[string]bool // names in scope before an unrolled loop
 	outer    map[*ast.ForStmt]map[string]bool // names in scope outside an unrolled loop
 	unrolled int
+	pviews   []pview // fft mode: sub-slice arguments of the call being built (copied back after the call)
 }
 
 func zeroVal(t *typ) *val {
@@ -1087,6 +1103,9 @@ func (x *tr) read(v *val) string {
 			x.need("Zero")
 		}
 		return v.term
+	}
+	if v.t.fun && x.p.cfg.ext == "fft" {
+		return x.readLong(v)
 	}
 	if v.t.fun {
 		reject("a long array is built element by element")
@@ -1142,6 +1161,9 @@ func (x *tr) write(s *state, l loc, nv *val) {
 	if strings.HasPrefix(l.root, "spec:") {
 		reject("write to data of the specialisation receiver (%s)", l.root[5:])
 	}
+	if s.cells[l.root].t.jag {
+		reject("write to the table %s", l.root)
+	}
 	if !x.typeAt(s, l).same(nv.t) {
 		reject("type mismatch in assignment to %s", x.locName(s, l))
 	}
@@ -1177,6 +1199,14 @@ func leanIdent(n string) string {
 		}
 	}
 	return b.String()
+}
+
+// a Go parameter name that is a Lean keyword (fft.go: `at`); no def emitted before had one, the Lean file would not have compiled
+func leanParam(n string) string {
+	if n == "at" {
+		return "at'"
+	}
+	return n
 }
 
 func (x *tr) fresh(base string) string {
@@ -1699,6 +1729,7 @@ func (x *tr) callFn(s *state, f *fn, owner *pkgCtx, key string, recv *loc, c *as
 	// evaluate the arguments left to right
 	locs := make([]*loc, len(f.pos))
 	vals := make([]string, len(f.pos))
+	pvMark := len(x.pviews)
 	var sp *spec
 	if x.p.cfg.ext != "" {
 		sp = newSpec()
@@ -1725,6 +1756,19 @@ func (x *tr) callFn(s *state, f *fn, owner *pkgCtx, key string, recv *loc, c *as
 				sp.ints[i] = n
 			} else {
 				sp.opaque[i] = true
+			}
+			ai++
+		case q.jag:
+			v := x.evalVal(s, args[ai])
+			if !v.t.jag {
+				reject("argument %d of %s is not a table of rows", ai, key)
+			}
+			sp.arrs[i] = v.t
+			vals[i] = x.read(v)
+			ai++
+		case q.isChan:
+			if n, ok := x.evalInt(s, args[ai]); !ok || n != 0 {
+				reject("channel argument of %s is not nil", key)
 			}
 			ai++
 		case q.slice:
@@ -1783,6 +1827,7 @@ func (x *tr) callFn(s *state, f *fn, owner *pkgCtx, key string, recv *loc, c *as
 			nb++
 		}
 	}
+	x.checkViews(pvMark, locs)
 	cv := owner.translateSpec(f, pat, sp)
 	if cv.err != "" && x.p.cfg.pairing && opaqueName(key) && recv != nil && f.kind == kProc {
 		// OPAQUE callee (pairing packages only, fixed exponentiations `Expt*` of the tower whose body leaves the subset:
@@ -1914,6 +1959,7 @@ func (x *tr) callFn(s *state, f *fn, owner *pkgCtx, key string, recv *loc, c *as
 			bind(cm, nm+proj(cm.idx, n))
 		}
 	}
+	x.flushViews(s, pvMark)
 	if f.kind == kValue || f.kind == kFlag {
 		return nil, ret, ""
 	}
@@ -2351,7 +2397,7 @@ func (p *pkgCtx) translateSpec(f *fn, pat []int, sp *spec) *variant {
 		}
 		seen[pat[i]] = true
 		v.roots = append(v.roots, blockName[pat[i]])
-		if q.slice {
+		if q.slice || q.jag {
 			v.rtypes = append(v.rtypes, sp.arrs[i])
 		} else {
 			v.rtypes = append(v.rtypes, q.t)
@@ -2379,6 +2425,9 @@ func (p *pkgCtx) translateSpec(f *fn, pat []int, sp *spec) *variant {
 			s.sints, s.sbools, s.bigs = map[string]int64{}, map[string]bool{}, map[string]*big.Int{}
 			x.extNamedResults(s)
 		}
+		if p.cfg.ext == "fft" {
+			s.views = map[string]view{}
+		}
 		for i, q := range f.pos {
 			r := blockName[pat[i]]
 			x.paramRoot[r] = true
@@ -2390,20 +2439,24 @@ func (p *pkgCtx) translateSpec(f *fn, pat []int, sp *spec) *variant {
 				if n, ok := sp.ints[i]; ok {
 					s.sints[q.name] = n
 				}
+			case q.isChan:
+				s.sints[q.name] = 0 // nil
+			case q.jag:
+				s.cells[r] = &val{t: sp.arrs[i], term: leanParam(r), origin: r}
 			case q.slice:
 				if _, ok := s.cells[r]; !ok {
-					s.cells[r] = &val{t: sp.arrs[i], term: r, origin: r}
+					s.cells[r] = &val{t: sp.arrs[i], term: leanParam(r), origin: r}
 				}
 				s.ptrs[q.name] = loc{root: r}
 			case q.isInt:
 				x.ints[q.name] = true
 			case q.ptr:
 				if _, ok := s.cells[r]; !ok {
-					s.cells[r] = &val{t: q.t, term: r, origin: r}
+					s.cells[r] = &val{t: q.t, term: leanParam(r), origin: r}
 				}
 				s.ptrs[q.name] = loc{root: r}
 			default:
-				s.cells[r] = &val{t: q.t, term: r, origin: r}
+				s.cells[r] = &val{t: q.t, term: leanParam(r), origin: r}
 			}
 		}
 		x.block(s, f.decl.Body.List)
@@ -2532,7 +2585,7 @@ func (v *variant) binders(p *pkgCtx) string {
 		if v.inUsed[i] && v.rtypes[i] == nil {
 			fmt.Fprintf(&b, " (%s : Nat)", r)
 		} else if v.inUsed[i] {
-			fmt.Fprintf(&b, " (%s : %s)", r, v.rtypes[i].lean())
+			fmt.Fprintf(&b, " (%s : %s)", leanParam(r), v.rtypes[i].lean())
 		}
 	}
 	for _, g := range v.gparams {
@@ -2653,6 +2706,10 @@ func (p *pkgCtx) emit() {
 		fmt.Fprintf(&b, "@[ext] structure %s (F : Type) where\n", t.name)
 		for i, f := range t.fields {
 			fmt.Fprintf(&b, "  %s : %s\n", f, t.ftypes[i].lean())
+		}
+		if t.jag {
+			b.WriteString("\n") // rows may be functions of the index
+			return
 		}
 		b.WriteString("deriving DecidableEq\n\n")
 	}
@@ -3106,6 +3163,9 @@ func runSLP() {
 	xall, xfail := runExt(want)
 	all = append(all, xall...)
 	failures = append(failures, xfail...)
+	fall, ffail := runFFT(want)
+	all = append(all, fall...)
+	failures = append(failures, ffail...)
 	if slpPrintTargets {
 		fmt.Println(strings.Join(all, "\n"))
 	}
